@@ -49,6 +49,11 @@ impl Interval {
         }
     }
 
+    /// An interval from all of its parts: months, days and the sub-day part in milliseconds.
+    pub const fn from_md_ms(months: i32, days: i32, ms: i32) -> Self {
+        Interval { months, days, ms }
+    }
+
     pub const fn from_secs(seconds: i32) -> Self {
         Interval {
             months: 0,
@@ -83,6 +88,11 @@ impl Interval {
 
     pub const fn num_months(&self) -> i32 {
         self.months
+    }
+
+    /// The sub-day part in milliseconds.
+    pub const fn num_milliseconds(&self) -> i32 {
+        self.ms
     }
 
     pub const fn is_zero(&self) -> bool {
